@@ -7,7 +7,7 @@ Corpus: /verif/lint/mutants/*.json  — list of {id, prop, file, old, new, expec
 The scratch worktree is /tmp/mrepo (created from /repo HEAD, reset before each mutant)."""
 import json, subprocess, sys, os, glob, tempfile, shutil
 ROOT = os.path.dirname(os.path.dirname(os.path.abspath(__file__)))
-SCR = "/tmp/mrepo"
+SCR = os.environ.get("VERIF_SCR", "/tmp/mrepo")
 def sh(cmd, **kw):
     return subprocess.run(cmd, shell=True, capture_output=True, text=True, **kw)
 def ensure():
